@@ -33,7 +33,7 @@ def parse_audit(line):
         for x in w[1:]:
             k, v = x.split("=")
             kv[k] = v
-        clients.append(dict(id=kv["id"], st=int(kv["st"]), cur=(None if kv["cur"] == "-" else int(kv["cur"])),
+        clients.append(dict(id=kv["id"], st=int(kv["st"]), cur=(None if kv["cur"] == "-" else (-1 if kv["cur"] == "?" else int(kv["cur"]))),
                             all=int(kv["as"], 16), sv=[int(x, 16) for x in kv["sv"].split(",")], ml=int(kv["ml"]),
                             wl=int(kv["wl"]), ov=int(kv["ov"])))
     msgs = []
@@ -140,8 +140,15 @@ class Oracle:
         if len(pos) != len(a["q"]):
             return "iter %d: a buffer is queued twice" % it
         for c in a["clients"]:
+            if c["cur"] is not None and c["cur"] not in pos and c["st"] == 2 and c["all"] == 0 and self.reconfigured:
+                return "grant-lost: client %d keeps its queue cursor although the device grants it nothing any more " \
+                       "(the queue was freed meanwhile)" % c["id"]
             if c["cur"] is not None and c["cur"] not in pos:
                 return "iter %d: cursor of client %d points outside the queue" % (it, c["id"])
+            if c["cur"] is not None and c["st"] == 2 and c["all"] == 0 and self.reconfigured:
+                # known (D6): the device was re-programmed (norm change) and no longer grants this client anything;
+                # vbi_proxyd_update_services set all_services = 0 but left the cursor in the queue
+                return "grant-lost: client %d keeps its queue cursor although the device grants it nothing any more" % c["id"]
             if c["cur"] is not None and not (c["st"] == 2 and c["all"] != 0):
                 return "iter %d: client %d has queued frames but is not subscribed" % (it, c["id"])
         for i, (s, r) in enumerate(a["q"]):
@@ -245,7 +252,15 @@ class Oracle:
                 if n != len(lines):
                     return "iter %d: client %d frame %d: line count field %d, %d lines" % (it, m[0], s, n, len(lines))
                 # the client's buffers hold vbi_count lines (the count it was told in its CNF): more cannot be sent
-                if lines != want and lines != want[:e["ml"]]:
+                alts = [want, want[:e["ml"]]]
+                if self.reconfigured:
+                    # the device was re-programmed after the frame was captured: the daemon filters with the grant the
+                    # client has when the frame is sent (a subset of what it had: services the device dropped)
+                    for src_a in ([x for x in a["clients"] if x["id"] == m[0]], [x for x in (prev["clients"] if prev else []) if x["id"] == m[0]]):
+                        for x in src_a:
+                            w2 = [l for l in src if l[0] & x["all"] & e["mask"]]
+                            alts += [w2, w2[:e["ml"]]]
+                if lines not in alts:
                     trunc = [l for l in src[:e["ml"]] if l[0] & e["mask"]]
                     if lines == trunc:
                         self.note_known("filter-truncation: lines of a client's services beyond index vbi_count (its line count "
@@ -280,6 +295,8 @@ class Oracle:
             return "closed"
         if self.relall_since:
             return "flush"
+        if self.reconfigured and ac["all"] == 0 and ac["cur"] is None:
+            return "grant-lost"      # repaired update_services: the device grants the client nothing any more
         if ac["wl"] in (SCNF, SREJ) and c["svc_ops"] > 0 and ac["cur"] is None:
             return "own-service-change"
         if prev is not None and prev["free"] == 0 and prev["q"] and any(x.startswith("read:") for x in a["dev"]):
@@ -307,7 +324,7 @@ class Oracle:
                 continue
             bad = []
             for e in undeliv:
-                if e["why"] in ("closed", "flush", "own-service-change", "overflow"):
+                if e["why"] in ("closed", "flush", "own-service-change", "overflow", "grant-lost"):
                     continue
                 if e["why"] == "known-force-free-second":
                     self.note_known("force-free-second: a client that is one frame ahead of a stalled client loses a frame "
